@@ -127,16 +127,23 @@ static void start_oracle_server()
   g_server = fork();
   if (g_server == 0) {
     close(rq[1]); close(rs[0]);
+    std::map<std::tuple<uint32_t, uint32_t, uint32_t>, std::string> memo; // raw responses (the server itself never calls the library)
     while (true) {
       uint32_t req[3]; if (!rd(rq[0], req, sizeof req)) _exit(0);
+      auto key = std::make_tuple(req[0], req[1], req[2]); auto hit = memo.find(key);
+      if (hit != memo.end()) { wr(rs[1], hit->second.data(), hit->second.size()); continue; }
+      int gp[2]; if (pipe(gp)) _exit(4);
       pid_t g = fork();
       if (g == 0) {
         OracleEvent o; compute_event((int)req[0], req[1], req[2], o);
-        uint64_t hdr[4] = {o.ok, o.v.size(), o.label.size(), o.used}; wr(rs[1], hdr, sizeof hdr); if (!o.v.empty()) wr(rs[1], o.v.data(), o.v.size() * sizeof(double)); if (!o.label.empty()) wr(rs[1], o.label.data(), o.label.size());
+        close(gp[0]);
+        uint64_t hdr[4] = {o.ok, o.v.size(), o.label.size(), o.used}; wr(gp[1], hdr, sizeof hdr); if (!o.v.empty()) wr(gp[1], o.v.data(), o.v.size() * sizeof(double)); if (!o.label.empty()) wr(gp[1], o.label.data(), o.label.size());
         _exit(0);
       }
+      close(gp[1]); std::string resp; char buf[4096]; ssize_t k; while ((k = read(gp[0], buf, sizeof buf)) > 0) resp.append(buf, k); close(gp[0]);
       int st; waitpid(g, &st, 0);
-      if (!WIFEXITED(st) || WEXITSTATUS(st) != 0) { uint64_t hdr[4] = {2, 0, 0, 0}; wr(rs[1], hdr, sizeof hdr); }
+      if (!WIFEXITED(st) || WEXITSTATUS(st) != 0 || resp.size() < 32) { uint64_t hdr[4] = {2, 0, 0, 0}; resp.assign((const char *)hdr, sizeof hdr); }
+      memo[key] = resp; wr(rs[1], resp.data(), resp.size());
     }
   }
   close(rq[0]); close(rs[1]); g_req_fd = rq[1]; g_rsp_fd = rs[0];
@@ -169,10 +176,11 @@ struct RunInfo { bool ok = true; std::string msg, cls; int step = -1; bool nontr
 
 static RunInfo run_history(const std::vector<Op> & ops)
 {
-  RunInfo ri; Slot slots[4]; int other_ops[4] = {0, 0, 0, 0};
+  int nslots = 4; for (auto & o : ops) nslots = std::max(nslots, o.slot + 1);
+  RunInfo ri; std::vector<Slot> slots(nslots); std::vector<int> other_ops(nslots, 0);
   for (size_t k = 0; k < ops.size(); k++) {
     const Op & o = ops[k]; Slot & s = slots[o.slot];
-    for (int j = 0; j < 4; j++) if (j != o.slot) other_ops[j]++;
+    for (int j = 0; j < nslots; j++) if (j != o.slot) other_ops[j]++;
     if (o.kind == CREATE) {
       s.g.reset(new G); s.cfg = o.cfg; s.iseed = o.tseed; s.shots = 0;
       configure(*s.g, CFGS[s.cfg]); Tape it; it.seed = s.iseed; TapeRandom r(it, 0, 200000); s.g->initialize(r);
@@ -201,6 +209,28 @@ static RunInfo run_history(const std::vector<Op> & ops)
       s.shots++; other_ops[o.slot] = 0; s.ev_used = true;
     }
   }
+  return ri;
+}
+
+// Each generated history runs in its own forked child: the history under test is then everything the process has done with the
+// library since its start, failures do not depend on earlier test cases, and the shrunk sequence replays in a fresh process.
+static RunInfo run_history_forked(const std::vector<Op> & ops)
+{
+  int p[2]; if (pipe(p)) throw std::runtime_error("pipe");
+  pid_t c = fork();
+  if (c == 0) {
+    close(p[0]); RunInfo ri;
+    try { ri = run_history(ops); } catch (std::exception & e) { ri.ok = false; ri.cls = "exception"; ri.msg = e.what(); }
+    std::string out = std::string(ri.ok ? "1" : "0") + (ri.nontrivial ? "1" : "0") + "\n" + ri.cls + "\n" + ri.target + "\n" + ri.shape + "\n" + ri.msg;
+    wr(p[1], out.data(), out.size()); _exit(0);
+  }
+  close(p[1]); std::string in; char buf[4096]; ssize_t k; while ((k = read(p[0], buf, sizeof buf)) > 0) in.append(buf, k); close(p[0]);
+  int st; waitpid(c, &st, 0);
+  RunInfo ri;
+  if (!WIFEXITED(st) || WEXITSTATUS(st) != 0 || in.size() < 3) { ri.ok = false; ri.cls = "crash"; ri.msg = "the history crashed the process (status " + std::to_string(st) + ")"; return ri; }
+  ri.ok = in[0] == '1'; ri.nontrivial = in[1] == '1';
+  std::vector<std::string> f; size_t pos = 3; for (int i = 0; i < 3; i++) { size_t e = in.find('\n', pos); f.push_back(in.substr(pos, e - pos)); pos = e + 1; }
+  ri.cls = f[0]; ri.target = f[1]; ri.shape = f[2]; ri.msg = in.substr(pos);
   return ri;
 }
 
@@ -248,7 +278,7 @@ int main(int argc, char ** argv)
       int c0 = *rc::gen::resize(100, rc::gen::inRange(0, NCFG)), c1 = *rc::gen::resize(100, rc::gen::inRange(0, NCFG));
       std::vector<Op> ops = {{CREATE, 0, c0, 0, 0, 11}, {CREATE, 1, c1, 0, 0, 12}};
       ops.insert(ops.end(), body.begin(), body.end());
-      RunInfo ri = run_history(ops);
+      RunInfo ri = run_history_forked(ops);
       cx.rep.evaluations++;
       if (ri.nontrivial && ri.ok) { cx.rep.nt(ri.target + "|" + ri.shape); cx.rep.label("target:" + ri.target); cx.rep.label("shape:" + ri.shape); }
       if (cx.rep.samples.size() < 4 && ri.nontrivial && ri.ok && ops.size() > 6 && ops.size() < 14) cx.rep.sample("{\"history\":" + jstr(ops_str(ops)) + "}");
@@ -256,6 +286,38 @@ int main(int argc, char ** argv)
       RC_ASSERT(ri.ok);
     });
     if (!okrc && !failing.empty()) record(cx, failing, fri);
+    // ---- marathon: ONE long history per shard (thousands of operations over every configuration), in one forked child.
+    // Hidden state shared across nuclides (a cache keyed too coarsely, a static buffer) needs a particular pair of operations to
+    // follow each other; a long history contains very many such pairs.  On failure the operation log is minimised by delta
+    // debugging, each candidate in its own fresh child, so the saved history replays in a fresh process.
+    long marathon = a.i("marathon", 3000);
+    if (marathon > 0 && cx.rep.failures.empty()) {
+      Rng r(mix(mix(seed, 0xC0707), shard)); std::vector<Op> ops;
+      // one generator per configuration (slot = configuration index), then shots hopping between them: every shot follows a shot of
+      // another nuclide; now and then an instance is reset + re-initialised or re-created
+      for (int sl = 0; sl < NCFG; sl++) ops.push_back({CREATE, sl, sl, 0, 0, (uint32_t)r.range(0, 1)});
+      for (long k = 0; k < marathon; k++) {
+        int kind = r.range(0, 39); Op o; o.slot = r.range(0, NCFG - 1); o.cfg = o.slot; o.kind = kind < 38 ? SHOOT : (kind == 38 ? CREATE : RESET_REINIT); o.evkind = r.range(0, 3); o.junk = r.range(0, 20); o.tseed = (uint32_t)r.range(0, 59);
+        if (o.kind == CREATE) o.tseed = (uint32_t)r.range(0, 1);
+        ops.push_back(o);
+      }
+      RunInfo ri = run_history_forked(ops); cx.rep.evaluations++; cx.rep.counters["marathon_operations"] += ops.size();
+      if (ri.ok) { cx.rep.nt("marathon|" + std::to_string(shard)); cx.rep.label("marathon-history"); }
+      else {
+        // ddmin on the log, keeping the same failure class
+        std::vector<Op> cur = ops; size_t chunk = cur.size() / 2; int budget = 400;
+        while (chunk >= 1 && budget > 0) {
+          bool removed = false;
+          for (size_t st = 0; st + chunk <= cur.size() && budget > 0;) {
+            std::vector<Op> cand(cur.begin(), cur.begin() + st); cand.insert(cand.end(), cur.begin() + st + chunk, cur.end());
+            RunInfo r2 = run_history_forked(cand); budget--;
+            if (!r2.ok && r2.cls == ri.cls) { cur = cand; ri = r2; removed = true; } else st += chunk;
+          }
+          if (!removed || chunk == 1) { if (chunk == 1) break; chunk /= 2; } else if (chunk > cur.size() / 2) chunk = std::max<size_t>(1, cur.size() / 2);
+        }
+        record(cx, cur, ri);
+      }
+    }
   } catch (std::exception & e) { fprintf(res, "HARNESS-ERROR %s\n", e.what()); fflush(res); return 2; }
   cx.rep.write(a.s("out", "report.json"));
   fprintf(res, "done evaluations=%llu failures=%zu\n", (unsigned long long)cx.rep.evaluations, cx.rep.failures.size()); fflush(res);
